@@ -2162,8 +2162,9 @@ func (p *Parser) parseField() (*Field, error) {
 	}
 	f.Alias = alias
 
-	// Consume all trailing whitespace.
-	p.consumeWhitespace()
+	// Consume all trailing whitespace and comments.
+	p.ScanIgnoreWhitespace()
+	p.Unscan()
 
 	return f, nil
 }
